@@ -1,8 +1,467 @@
-import VncModel.Scale.State
+import VncModel.Scale.Lemmas
+import VncModel.Scale.StateLemmas
+import VncModel.Scale.Converge
+import VncModel.Scale.Ieee
+/-!
+# C17 — server-side scaling delivers consistent geometry and correctly filtered pixels
+
+Model: `VncModel.Scale` (`Model.lean`, `State.lean`) — `src/libvncserver/scale.c` (ScaleX/ScaleY,
+rfbScaledCorrection, rfbScaledScreenUpdateRect, rfbScaledScreenUpdate, rfbScalingFind/Allocate/Setup),
+the SetScale / PalmVNCSetScaleFactor cases and rectSwapIfLEAndClip of `rfbserver.c`, the refcount
+handling of rfbNewClient / rfbClientConnectionGone, rfbMarkRectAsModified → rfbScaledScreenUpdate of
+`main.c`.  The model follows the code with the three C17 fixes (integer ScaleX/ScaleY, width 0
+refused, per-pixel block origin; /repo commits b3494ad, 916387d, d7beb2f).  It is tied to the code on
+every run by harness/c17.c against Driver/C17.lean (vlib/props/c17.py).
+
+What the theorems say for the property
+* `told_reduced_size`        a client asking for factor n ≥ 1 ends on the screen of size
+                             (W div n) × (H div n) — integer division rounding DOWN, which is what the
+                             client is told (the property's "width/n by height/n") — and the size
+                             announcement is pending; factor 1 is `factor1_identity`.
+* `scale_zero_rejected`      factor 0: the connection is closed, no reference is left behind.
+* `zero_dimension_rejected`  a factor reducing a dimension to 0 changes nothing (client keeps its
+                             size); `no_zero_dimension_screen`: no scaled screen with a zero dimension
+                             ever exists, for any history.
+* `corrected_rect_inside`    rfbScaledCorrection maps every non-empty rectangle inside the screen to a
+                             non-empty rectangle inside the scaled screen ("receives only rectangles
+                             inside that size").
+* `corrected_rect_covers`    every reduced pixel whose source block meets a modified rectangle lies in
+                             the corrected rectangle (so it is refreshed and sent: no lost edge column).
+* `filter_reads_inside_source`, `filter_writes_inside_dest`
+                             every byte read / written by the box filter lies inside the respective
+                             framebuffer — NO hypothesis about the right/bottom edge or about the
+                             factor dividing the size is needed (fixed code).
+* `filter_is_block_average`  a refreshed pixel is the per-channel ⌊sum/(areaX·areaY)⌋ of its block
+                             (colour-mapped: top-left pixel), pixels outside the corrected rectangle are
+                             untouched; `block_is_nxn_when_dividing`: the block is the n×n block at
+                             (nX, nY) whenever n divides the size.
+* `scaled_copy_tracks`, `scaled_copy_full_refresh`
+                             convergence of the scaled copy: after a modification inside a rectangle and
+                             the refresh of that rectangle the copy equals the reference image again.
+* `pointer_mapped_back`      a pointer position of the scaled client is mapped to the top-left source
+                             pixel of the block shown at that position (inside the screen).
+* `refcount_conservation`    for EVERY history of join / change factor (both variants, any n) / leave /
+                             modify: each screen's refcount = number of clients using it, scaled
+                             screens have pairwise distinct sizes different from the screen's,
+                             every client's screen exists (induction over the history).
+* `factor1_identity`         factor 1 selects the screen itself (no copy, no correction, no filter).
+
+Stated assumption (IEEE): rfbScaledCorrection evaluates `to/from`, `x*scale`, `w*scale`,
+`w1 + (x1 - x2)` and the FLOOR/CEIL casts in binary64, round to nearest even, without contraction or
+excess precision — i.e. exactly as the software-float model `corrRaw` (`Dy`, `rne`).  This is the only
+unproved link; it is checked against the C function on every run (exhaustive 1-D sizes ≤ 30/44, random
+16-bit operands, random 2-D rectangles).  The arithmetic half of the argument is a theorem:
+`corrRaw_sound` (for operands < 2¹⁶ each of the 4 roundings has relative error ≤ 2⁻⁵³, total absolute
+error < 2⁻³⁰; `X = x·to/from`, `V = (x+w)·to/from` are multiples of `1/from` with `from < 2¹⁶`, so a
+non-integer value is ≥ 2⁻¹⁶ away from every integer and FLOOR/CEIL are exact; an integer value may be
+missed by one, which is what the relational bounds `CorrRel` — `x2 ≤ X ≤ x2+1`, `V ≤ x2+w2 < V+2` —
+allow).  The theorems about the correction are stated for EVERY `CorrRel` outcome and, combined with
+`corrRaw_sound`, for the computed function (`corrected_rect_code`, `scaled_views_converge`).
+ScaleX/ScaleY are integer arithmetic in the fixed code and need no assumption.
+No theorem of this file is `_partial`.
+-/
 namespace VncModel.Props.C17
 open VncModel.Scale
 
-theorem told_reduced_size_stub (W n : Nat) : scaleN 1 1 (W / n) = W / n := by
-  simp [scaleN]
+/-! ## geometry told to the client -/
+
+/-- the effect of rfbScalingSetup on the client record when the target screen can be provided -/
+theorem scalingSetup_client {s : Srv} {i : Nat} {c : Client}
+    (hf : s.clients.find? (·.id == i) = some c) {w h : Nat} (hw : 0 < w) (hh : 0 < h) :
+    (scalingSetup s c w h).clients
+      = setClient s.clients i fun c => { c with sw := w, sh := h, pending := true } := by
+  have hid : c.id = i := by simpa using List.find?_some hf
+  unfold scalingSetup
+  have hz : ¬ (w = 0 ∨ h = 0) := by omega
+  by_cases hfound : (isMain s w h || (findChain s.chain w h).isSome) = true
+  · simp only [hfound, if_true]
+    split <;> simp [bump_main_dims, hid]
+  · have hnf : (isMain s w h || (findChain s.chain w h).isSome) = false := by simpa using hfound
+    simp only [hnf, allocate, hz, if_false, Bool.false_eq_true]
+    split <;> simp [bump_main_dims, hid]
+
+theorem setPalm_find {s : Srv} {id : Nat} {c : Client} (palm : Bool)
+    (hc : s.clients.find? (·.id == id) = some c) :
+    (setPalm s id palm).clients.find? (·.id == id) = some { c with palm := c.palm || palm } := by
+  unfold setPalm
+  cases palm
+  · simp [hc]
+  · simp only [if_true]
+    rw [find_setClient (fun c => { c with palm := true }) (fun _ => rfl), hc]; simp
+
+/-- **told_reduced_size**: after SetScale(n) (either variant, n ≥ 1, both reduced dimensions ≥ 1) the
+client uses the screen of size `W div n × H div n` and the announcement is pending. -/
+theorem told_reduced_size (s : Srv) (id n : Nat) (palm : Bool) (c : Client)
+    (hc : s.clients.find? (·.id == id) = some c) (hn : n ≠ 0)
+    (hw : 0 < s.main.w / n) (hh : 0 < s.main.h / n) :
+    ∃ c', (step s (.setScale id palm n)).clients.find? (·.id == id) = some c' ∧
+      c'.sw = s.main.w / n ∧ c'.sh = s.main.h / n ∧ c'.pending = true ∧ c'.id = id := by
+  show ∃ c', (setScaleCore (setPalm s id palm) id n).clients.find? (·.id == id) = some c' ∧ _
+  have hf := setPalm_find palm hc
+  have hm : (setPalm s id palm).main = s.main := by unfold setPalm; split <;> rfl
+  unfold setScaleCore
+  rw [hf]
+  simp only [hn, if_false, hm]
+  rw [scalingSetup_client hf hw hh,
+      find_setClient (fun c => { c with sw := s.main.w / n, sh := s.main.h / n, pending := true }) (fun _ => rfl), hf]
+  have hid : c.id = id := by simpa using List.find?_some hc
+  exact ⟨_, rfl, rfl, rfl, rfl, hid⟩
+
+/-- **scale_zero_rejected**: factor 0 closes the connection (the client is gone afterwards) -/
+theorem scale_zero_rejected (s : Srv) (id : Nat) (palm : Bool) :
+    (step s (.setScale id palm 0)).clients.find? (·.id == id) = none := by
+  show (setScaleCore (setPalm s id palm) id 0).clients.find? (·.id == id) = none
+  unfold setScaleCore
+  split
+  · rename_i h; exact h
+  · simp only [if_true, removeClient]
+    apply List.find?_eq_none.mpr
+    intro x hx
+    have := (List.mem_filter.mp hx).2
+    simpa using this
+
+/-- **zero_dimension_rejected**: a factor that reduces a dimension to 0 leaves the scaled-screen
+chain, all reference counts and the client's screen untouched (only the PalmVNC flag is set) -/
+theorem zero_dimension_rejected (s : Srv) (hi : Inv s) (id n : Nat) (palm : Bool) (hn : n ≠ 0)
+    (hW : 0 < s.main.w) (hH : 0 < s.main.h)
+    (hz : s.main.w / n = 0 ∨ s.main.h / n = 0) :
+    step s (.setScale id palm n) = setPalm s id palm := by
+  show setScaleCore (setPalm s id palm) id n = setPalm s id palm
+  have hm : (setPalm s id palm).main = s.main := by unfold setPalm; split <;> rfl
+  have hch : (setPalm s id palm).chain = s.chain := by unfold setPalm; split <;> rfl
+  unfold setScaleCore
+  split
+  · rfl
+  · simp only [hn, if_false, hm]
+    unfold scalingSetup
+    have h1 : isMain (setPalm s id palm) (s.main.w / n) (s.main.h / n) = false := by
+      cases e : isMain (setPalm s id palm) (s.main.w / n) (s.main.h / n)
+      · rfl
+      · have := (isMain_iff _ _ _).mp e
+        rw [hm] at this
+        omega
+    have h2 : (findChain (setPalm s id palm).chain (s.main.w / n) (s.main.h / n)).isSome = false := by
+      cases e : (findChain (setPalm s id palm).chain (s.main.w / n) (s.main.h / n)).isSome
+      · rfl
+      · rw [hch] at e
+        have := hi.shape.pos _ (findChain_some e)
+        simp only at this
+        omega
+    simp only [h1, h2, Bool.or_false, Bool.false_eq_true, if_false, allocate, hz, if_true]
+
+/-- **refcount_conservation** (and the shape of the chain) for every history -/
+theorem refcount_conservation (f : Fmt) (fb : Img) (ops : List Op) :
+    let s := run (init f fb) ops
+    s.main.ref = users s.clients s.main.w s.main.h ∧
+    (∀ p ∈ s.chain, p.ref = users s.clients p.w p.h) ∧
+    (dimsOf s.chain).Nodup ∧ (s.main.w, s.main.h) ∉ dimsOf s.chain ∧
+    (∀ c ∈ s.clients, (c.sw, c.sh) = (s.main.w, s.main.h) ∨ (c.sw, c.sh) ∈ dimsOf s.chain) := by
+  have hi := inv_run (inv_init f fb) ops
+  exact ⟨hi.refs.main, hi.refs.chain, hi.shape.distinct, hi.shape.notMain, hi.known⟩
+
+/-- one step preserves the invariant from ANY state satisfying it (used by the induction) -/
+theorem refcount_step (s : Srv) (hi : Inv s) (op : Op) : Inv (step s op) := inv_step hi op
+
+/-- no scaled screen with a zero dimension exists, whatever the history -/
+theorem no_zero_dimension_screen (f : Fmt) (fb : Img) (ops : List Op) :
+    ∀ p ∈ (run (init f fb) ops).chain, 0 < p.w ∧ 0 < p.h := by
+  intro p hp
+  have hi := inv_run (inv_init f fb) ops
+  exact hi.shape.pos (p.w, p.h) (List.mem_map.mpr ⟨p, hp, rfl⟩)
+
+/-- **factor1_identity**: factor 1 puts the client back on the screen itself; for `from == to`
+rfbScaledCorrection and rectSwapIfLEAndClip's correction are the identity -/
+theorem factor1_identity (s : Srv) (id : Nat) (palm : Bool) (c : Client)
+    (hc : s.clients.find? (·.id == id) = some c) (hW : 0 < s.main.w) (hH : 0 < s.main.h) :
+    (∃ c', (step s (.setScale id palm 1)).clients.find? (·.id == id) = some c' ∧
+      isMain s c'.sw c'.sh = true) ∧
+    (∀ fw fh tw th r, corr true fw fh tw th r = r) := by
+  constructor
+  · obtain ⟨c', h1, h2, h3, _, _⟩ := told_reduced_size s id 1 palm c hc (by omega)
+      (by rw [Nat.div_one]; exact hW) (by rw [Nat.div_one]; exact hH)
+    refine ⟨c', h1, ?_⟩
+    rw [h2, h3, Nat.div_one, Nat.div_one]
+    simp [isMain]
+  · intro fw fh tw th r; rfl
+
+/-! ## rfbScaledCorrection -/
+
+/-- **corrected_rect_inside**: a non-empty rectangle inside the `fw × fh` screen is corrected to a
+non-empty rectangle inside the `tw × th` screen, for every outcome of the double arithmetic allowed
+by `CorrRel` -/
+theorem corrected_rect_inside (fw fh tw th x y w h : Nat) (rx ry : Nat × Nat)
+    (hrx : CorrRel fw tw x w rx) (hry : CorrRel fh th y h ry)
+    (htw : 0 < tw) (hth : 0 < th) (hw : 1 ≤ w) (hh : 1 ≤ h) (hxw : x + w ≤ fw) (hyh : y + h ≤ fh) :
+    let cx := corrFix tw rx
+    let cy := corrFix th ry
+    1 ≤ cx.2 ∧ 1 ≤ cy.2 ∧ (cx.1 : Int) + cx.2 ≤ tw ∧ (cy.1 : Int) + cy.2 ≤ th := by
+  have a := corrFix_inside hrx htw hw hxw
+  have b := corrFix_inside hry hth hh hyh
+  exact ⟨a.2.1, b.2.1, a.2.2, b.2.2⟩
+
+/-- **corrected_rect_covers**: if source pixel `(sx, sy)` of the modified rectangle belongs to the
+block of reduced pixel `(X, Y)`, then `(X, Y)` lies in the corrected rectangle -/
+theorem corrected_rect_covers (fw fh tw th x y w h X Y sx sy : Nat) (rx ry : Nat × Nat)
+    (hrx : CorrRel fw tw x w rx) (hry : CorrRel fh th y h ry)
+    (htw : 0 < tw) (hth : 0 < th) (hX : X < tw) (hY : Y < th)
+    (hx1 : x ≤ sx) (hx2 : sx < x + w) (hy1 : y ≤ sy) (hy2 : sy < y + h)
+    (bx1 : scaleN X tw fw ≤ sx) (bx2 : sx < scaleN X tw fw + scaleN 1 tw fw)
+    (by1 : scaleN Y th fh ≤ sy) (by2 : sy < scaleN Y th fh + scaleN 1 th fh) :
+    let cx := corrFix tw rx
+    let cy := corrFix th ry
+    cx.1 ≤ X ∧ (X : Int) < cx.1 + cx.2 ∧ cy.1 ≤ Y ∧ (Y : Int) < cy.1 + cy.2 := by
+  have a := corrFix_covers hrx htw hX hx1 hx2 bx1 bx2
+  have b := corrFix_covers hry hth hY hy1 hy2 by1 by2
+  exact ⟨a.1, a.2, b.1, b.2⟩
+
+/-! ## the box filter -/
+
+/-- **filter_reads_inside_source**: every source pixel read for reduced pixel `(X,Y)` lies inside the
+`W × H` framebuffer, and so does every byte of it (`stride = paddedWidthInBytes ≥ W·bpp`).  No
+hypothesis on the factor: holds for sizes not divisible by it, at the right / bottom edge too. -/
+theorem filter_reads_inside_source (W H tw th stride bpp X Y i j : Nat)
+    (htw : 0 < tw) (hth : 0 < th) (hX : X < tw) (hY : Y < th)
+    (hi : i < scaleN 1 tw W) (hj : j < scaleN 1 th H) (hs : W * bpp ≤ stride) :
+    scaleN X tw W + i < W ∧ scaleN Y th H + j < H ∧
+    srcByteIndex W H tw th stride bpp X Y i j + bpp ≤ H * stride := by
+  have bx := block_inside (W := W) htw hX
+  have by' := block_inside (W := H) hth hY
+  refine ⟨by omega, by omega, ?_⟩
+  unfold srcByteIndex
+  have h1 : (scaleN Y th H + j + 1) * stride ≤ H * stride := Nat.mul_le_mul_right stride (by omega)
+  have h2 : (scaleN X tw W + i + 1) * bpp ≤ W * bpp := Nat.mul_le_mul_right bpp (by omega)
+  rw [Nat.add_mul, Nat.one_mul] at h1 h2
+  omega
+
+/-- **filter_writes_inside_dest**: every byte written for a pixel of the corrected rectangle lies inside
+the scaled framebuffer (`pstride ≥ tw·bpp`) -/
+theorem filter_writes_inside_dest (tw th pstride bpp X Y : Nat)
+    (hX : X < tw) (hY : Y < th) (hs : tw * bpp ≤ pstride) :
+    dstByteIndex pstride bpp X Y + bpp ≤ th * pstride := by
+  unfold dstByteIndex
+  have h1 : (Y + 1) * pstride ≤ th * pstride := Nat.mul_le_mul_right pstride hY
+  have h2 : (X + 1) * bpp ≤ tw * bpp := Nat.mul_le_mul_right bpp hX
+  rw [Nat.add_mul, Nat.one_mul] at h1 h2
+  omega
+
+/-- the stride of a scaled screen (`pad4(width·bpp)`) is large enough -/
+theorem pad4_ge (v : Nat) : v ≤ pad4 v := by
+  unfold pad4; split <;> omega
+
+/-- **filter_is_block_average**: rfbScaledScreenUpdateRect sets every pixel of the corrected rectangle
+to the block average and leaves every other pixel alone; the average is, per channel,
+`⌊Σ block / (areaX·areaY)⌋`, colour-mapped screens take the top-left pixel of the block -/
+theorem filter_is_block_average (f : Fmt) (src dst : Img) (r : Rect) (X Y : Nat)
+    (hX : X < dst.w) (hY : Y < dst.h) :
+    let c := corr false src.w src.h dst.w dst.h r
+    let a := scaleN 1 dst.w src.w
+    let b := scaleN 1 dst.h src.h
+    let ox := scaleN X dst.w src.w
+    let oy := scaleN Y dst.h src.h
+    ((c.has X Y = true → (updateRect f src dst r).get X Y = filterPixel f src a b ox oy) ∧
+     (c.has X Y = false → (updateRect f src dst r).get X Y = dst.get X Y)) ∧
+    (f.trueColour = true → filterPixel f src a b ox oy =
+      ((((blockSum src f.rSh f.rMax a b ox oy / (a * b)) &&& f.rMax) <<< f.rSh) |||
+       (((blockSum src f.gSh f.gMax a b ox oy / (a * b)) &&& f.gMax) <<< f.gSh) |||
+       (((blockSum src f.bSh f.bMax a b ox oy / (a * b)) &&& f.bMax) <<< f.bSh)) % 2 ^ (8 * f.bpp)) ∧
+    (f.trueColour = false → filterPixel f src a b ox oy = src.get ox oy) := by
+  refine ⟨⟨?_, ?_⟩, ?_, ?_⟩
+  · intro h; rw [updateRect_get f src dst r hX hY, h]; rfl
+  · intro h; rw [updateRect_get f src dst r hX hY, h]; rfl
+  · intro h; simp [filterPixel, h]
+  · intro h; simp [filterPixel, h]
+
+/-- the channel sum is a sum: a block of constant channel value `v` sums to `a·b·v` (so the
+average is `v`) -/
+theorem blockSum_const (src : Img) (sh mx a b ox oy v : Nat)
+    (h : ∀ i j, i < a → j < b → (src.get (ox + i) (oy + j) >>> sh) &&& mx = v) :
+    blockSum src sh mx a b ox oy = a * b * v := by
+  unfold blockSum
+  have inner : ∀ (i : Nat), i < a → ∀ (n : Nat) (acc : Nat), n ≤ b →
+      (List.range n).foldl (fun acc j => acc + ((src.get (ox + i) (oy + j) >>> sh) &&& mx)) acc
+        = acc + n * v := by
+    intro i hi n
+    induction n with
+    | zero => intro acc _; simp
+    | succ n ih =>
+      intro acc hn
+      rw [List.range_succ, List.foldl_append, ih acc (by omega)]
+      simp only [List.foldl_cons, List.foldl_nil]
+      rw [h i n hi (by omega), Nat.add_mul]; omega
+  have outer : ∀ (n : Nat), n ≤ a →
+      (List.range n).foldl (fun acc i =>
+        (List.range b).foldl (fun acc j => acc + ((src.get (ox + i) (oy + j) >>> sh) &&& mx)) acc) 0
+        = n * (b * v) := by
+    intro n
+    induction n with
+    | zero => intro _; simp
+    | succ n ih =>
+      intro hn
+      rw [List.range_succ, List.foldl_append, ih (by omega)]
+      simp only [List.foldl_cons, List.foldl_nil]
+      rw [inner n (by omega) b _ (Nat.le_refl b), Nat.add_mul]; omega
+  rw [outer a (Nat.le_refl a), Nat.mul_assoc]
+
+/-- for a factor dividing both dimensions the block of reduced pixel `(X,Y)` is the `n × n` block at
+`(n·X, n·Y)` and the divisor is `n²` -/
+theorem block_is_nxn_when_dividing (W H n X Y : Nat) (hn : 0 < n) (hW : 0 < W) (hH : 0 < H)
+    (dW : n ∣ W) (dH : n ∣ H) :
+    scaleN 1 (W / n) W = n ∧ scaleN 1 (H / n) H = n ∧
+    scaleN X (W / n) W = n * X ∧ scaleN Y (H / n) H = n * Y := by
+  have a := block_dividing (X := X) hn dW hW
+  have b := block_dividing (X := Y) hn dH hH
+  exact ⟨a.1, b.1, a.2, b.2⟩
+
+/-- **scaled_copy_tracks**: the scaled copy stays the reference image across a modification: if it was
+the reference image of `src`, `src'` differs from `src` only inside a rectangle, and that rectangle is
+refreshed (rfbMarkRectAsModified → rfbScaledScreenUpdateRect), it is the reference image of `src'` -/
+theorem scaled_copy_tracks (f : Fmt) (src src' dst : Img) (x y w h : Nat)
+    (hdw : src'.w = src.w) (hdh : src'.h = src.h)
+    (htw : 0 < dst.w) (hth : 0 < dst.h) (hlw : dst.w ≤ src.w) (hlh : dst.h ≤ src.h)
+    (hsame : ∀ px py, px < src.w → py < src.h →
+      ¬ (x ≤ px ∧ px < x + w ∧ y ≤ py ∧ py < y + h) → src'.get px py = src.get px py)
+    (hinv : ∀ X Y, X < dst.w → Y < dst.h → dst.get X Y = (reference f src dst.w dst.h).get X Y)
+    (hrx : CorrRel src.w dst.w x w (corrRaw src.w dst.w x w))
+    (hry : CorrRel src.h dst.h y h (corrRaw src.h dst.h y h)) :
+    ∀ X Y, X < dst.w → Y < dst.h →
+      (updateRect f src' dst ⟨x, y, w, h⟩).get X Y = (reference f src' dst.w dst.h).get X Y := by
+  intro X Y hX hY
+  have hinv' : ∀ X Y, X < dst.w → Y < dst.h → dst.get X Y = scaledPixel f src dst.w dst.h X Y := by
+    intro X Y hX hY
+    rw [hinv X Y hX hY]; unfold reference; rw [Img.get_tabulate _ _ _ hX hY]
+  rw [updateRect_tracks f src src' dst x y w h hdw hdh htw hth hlw hlh hsame hinv' hrx hry X Y hX hY]
+  unfold reference; rw [Img.get_tabulate _ _ _ hX hY]
+
+/-- a refresh of the whole screen (new scaled screen, or re-use of an unreferenced one) yields the
+reference image whatever the copy contained -/
+theorem scaled_copy_full_refresh (f : Fmt) (src dst : Img)
+    (htw : 0 < dst.w) (hth : 0 < dst.h) (hlw : dst.w ≤ src.w) (hlh : dst.h ≤ src.h)
+    (hrx : CorrRel src.w dst.w 0 src.w (corrRaw src.w dst.w 0 src.w))
+    (hry : CorrRel src.h dst.h 0 src.h (corrRaw src.h dst.h 0 src.h)) :
+    ∀ X Y, X < dst.w → Y < dst.h →
+      (updateRect f src dst ⟨(0 : Nat), (0 : Nat), src.w, src.h⟩).get X Y
+        = (reference f src dst.w dst.h).get X Y := by
+  intro X Y hX hY
+  rw [updateRect_full f src dst htw hth hlw hlh hrx hry X Y hX hY]
+  unfold reference; rw [Img.get_tabulate _ _ _ hX hY]
+
+/-! ## pointer -/
+
+/-- **pointer_mapped_back**: position `x` of a client on the `tw`-wide scaled screen is delivered as
+`ScaleX(scaled, screen, x) = x·W div tw`: a pixel inside the screen, namely the first column of the
+block displayed at `x`; it overlaps the source interval `[x·W/tw, (x+1)·W/tw)` of that pixel -/
+theorem pointer_mapped_back (W tw x : Nat) (htw : 0 < tw) (hle : tw ≤ W) (hx : x < tw) :
+    let mx := scaleN x tw W
+    mx < W ∧ mx * tw ≤ x * W ∧ x * W < (mx + 1) * tw ∧ mx * tw < (x + 1) * W := by
+  have b := block_inside (W := W) htw hx
+  have a := area_pos htw hle
+  have l := scaleN_mul_le x tw W
+  have u := lt_scaleN_succ_mul x tw W htw
+  refine ⟨by omega, l, u, ?_⟩
+  rw [Nat.add_mul, Nat.one_mul]; omega
+
+/-! ## non-vacuity and kernel-checked samples -/
+
+/-- **corrRaw_sound** (the arithmetic half of the IEEE argument, proved): for all sizes < 2¹⁶,
+down-scaling, every non-empty rectangle inside the source screen, the software-float evaluation of
+rfbScaledCorrection's double expressions satisfies `CorrRel`.  (Error analysis over ℚ in
+`Scale/Ieee.lean`: each rounding has relative error ≤ 2⁻⁵³, total absolute error < 2⁻³⁰ < 1/from.)
+What remains assumed is only that the C compiler/FPU evaluate the expressions as binary64
+round-to-nearest-even, i.e. like `corrRaw` — checked against the C code on every run. -/
+theorem corrRaw_sound : CorrRawSound := VncModel.Scale.corrRaw_sound
+
+/-- kernel-evaluated instance (a test): all 1-D rectangles on all sizes up to 8 -/
+theorem corrRaw_sound_small :
+    ∀ fw ∈ List.range 9, ∀ tw ∈ List.range 9, ∀ x ∈ List.range 9, ∀ w ∈ List.range 9,
+      0 < fw → 0 < tw → 1 ≤ w → x + w ≤ fw → CorrRel fw tw x w (corrRaw fw tw x w) := by
+  decide +kernel
+
+/-- `corrected_rect_inside` + `corrected_rect_covers` for the function the code computes
+(`corr1`), no `CorrRel` hypothesis left: direction screen → scaled screen, sizes < 2¹⁶ -/
+theorem corrected_rect_code (fw tw x w : Nat) (htw : 0 < tw) (hle : tw ≤ fw) (hfw : fw < 65536)
+    (hw : 1 ≤ w) (hxw : x + w ≤ fw) :
+    1 ≤ (corr1 fw tw x w).2 ∧ ((corr1 fw tw x w).1 : Int) + (corr1 fw tw x w).2 ≤ tw ∧
+    ∀ X sx, X < tw → x ≤ sx → sx < x + w → scaleN X tw fw ≤ sx → sx < scaleN X tw fw + scaleN 1 tw fw →
+      (corr1 fw tw x w).1 ≤ X ∧ (X : Int) < (corr1 fw tw x w).1 + (corr1 fw tw x w).2 := by
+  have hrel := corrRaw_sound fw tw x w htw hle hfw hw hxw
+  have a := corrFix_inside hrel htw hw hxw
+  refine ⟨a.2.1, a.2.2, ?_⟩
+  intro X sx hX h1 h2 h3 h4
+  exact corrFix_covers hrel htw hX h1 h2 h3 h4
+
+/-- rectSwapIfLEAndClip never lets a request leave the screen, whatever the client sends and
+whatever the correction computes (explicit clipping, 16-bit wrap-arounds included) -/
+theorem request_rect_inside_screen (same : Bool) (W H tw th : Nat) (r q : Rect)
+    (h : clipReq same W H tw th r = some q) :
+    0 ≤ q.x ∧ 0 ≤ q.y ∧ 0 ≤ q.w ∧ 0 ≤ q.h ∧ q.x + q.w ≤ W ∧ q.y + q.h ≤ H := by
+  unfold clipReq at h
+  simp only at h
+  generalize corr same tw th W H r = c at h
+  unfold u16 at h
+  repeat' split at h
+  all_goals first
+    | (cases h; done)
+    | (cases h; simp only; omega)
+
+/-- **scaled_views_converge**: for EVERY history of joins, factor changes (both variants, any n,
+including refused ones), leaves and framebuffer modifications inside marked rectangles, every scaled
+screen that has at least one user equals the reference box-filtered image of the current
+framebuffer — shared views stay correct when clients join, change factor or leave, and the copy
+converges after every modification.  (Uses `corrRaw_sound`; screen sizes < 2¹⁶ as on the wire.) -/
+theorem scaled_views_converge (f : Fmt) (fb : Img)
+    (hW : fb.w < 65536) (hH : fb.h < 65536) (hPw : 0 < fb.w) (hPh : 0 < fb.h)
+    (es : List Ev) (hv : ValidRun (init f fb) es) :
+    let s := runEv (init f fb) es
+    ∀ p ∈ s.chain, 0 < users s.clients p.w p.h → ∀ X Y, X < p.w → Y < p.h →
+      p.img.get X Y = (reference s.fmt s.main.img p.w p.h).get X Y := by
+  intro s p hp hu X Y hX hY
+  have h := synced_run (inv_init f fb) (synced_init f fb) corrRaw_sound hW hH hPw hPh es hv
+  have hr : 0 < p.ref := by rw [h.1.refs.chain p hp]; exact_mod_cast hu
+  rw [h.2.ok p hp hr X Y hX hY]
+  unfold reference; rw [Img.get_tabulate _ _ _ hX hY]
+
+-- ValidRun is satisfiable by a non-trivial history: two clients on factor 2, a 1-pixel modification
+-- at the bottom-right corner, one client leaves
+example :
+    ValidRun (init ⟨4, true, 255, 255, 255, 0, 8, 16⟩ (Img.tabulate 6 4 fun x y => x + y))
+      [.op (.join 0 false), .op (.join 1 true), .op (.setScale 0 false 2), .op (.setScale 1 true 2),
+       .draw 5 3 1 1 (Img.tabulate 6 4 fun x y => if x = 5 ∧ y = 3 then 77 else x + y),
+       .op (.leave 0)] := by
+  refine ⟨trivial, trivial, trivial, trivial, ⟨rfl, rfl, by decide, by decide, by decide, by decide, ?_⟩, trivial, trivial⟩
+  intro px py hx hy hn
+  have e : ∀ g : Nat → Nat → Nat, (Img.tabulate 6 4 g).get px py = g px py :=
+    fun g => Img.get_tabulate 6 4 g hx hy
+  show (Img.tabulate 6 4 _).get px py = (Img.tabulate 6 4 _).get px py
+  rw [e, e]
+  have : ¬ (px = 5 ∧ py = 3) := by omega
+  simp [this]
+
+example : corrRaw 98 49 97 1 = (48, 1) := by decide +kernel
+-- request_rect_inside_screen: accepted request (scaled 10x6 of 20x12) and refused one (x beyond)
+example : clipReq false 20 12 10 6 ⟨2, 1, 3, 2⟩ = some ⟨4, 2, 6, 4⟩ := by decide +kernel
+example : clipReq false 20 12 10 6 ⟨65535, 0, 1, 1⟩ = none := by decide +kernel
+-- corrected_rect_code on the 1-pixel right-edge column of a 100 wide screen at factor 3
+example : corr1 100 33 99 1 = (32, 1) ∧ scaleN 32 33 100 = 96 ∧ scaleN 1 33 100 = 3 := by decide +kernel
+example : corr1 100 33 99 1 = (32, 1) := by decide +kernel
+example : CorrRel 11 3 6 1 (corrRaw 11 3 6 1) := by decide +kernel
+-- corrected_rect_inside / corrected_rect_covers: hypotheses are satisfiable (11 wide, factor 3,
+-- modification of source column 6, which belongs to the block [3,6]..: reduced pixel 1)
+example : (1 : Nat) ≤ (corrFix 3 (corrRaw 11 3 6 1)).2 ∧ ((corrFix 3 (corrRaw 11 3 6 1)).1 : Int) + (corrFix 3 (corrRaw 11 3 6 1)).2 ≤ 3 := by
+  decide +kernel
+example : scaleN 1 3 11 = 3 ∧ scaleN 2 3 11 = 7 ∧ scaleN 2 3 11 + scaleN 1 3 11 ≤ 11 := by decide
+-- told_reduced_size / refcount: a concrete history (two clients, both on factor 2, one leaves)
+example :
+    let s := run (init ⟨4, true, 255, 255, 255, 0, 8, 16⟩ (Img.tabulate 6 4 fun x y => x + y))
+      [.join 0 false, .join 1 true, .setScale 0 false 2, .setScale 1 true 2, .leave 0, .setScale 1 false 7]
+    s.main.ref = 0 ∧ (s.chain.map fun p => (p.w, p.h, p.ref)) = [(3, 2, 1)] ∧
+    (s.clients.map fun c => (c.id, c.sw, c.sh, c.palm)) = [(1, 3, 2, true)] := by
+  decide +kernel
+-- filter: 2x2 average of a 32 bpp image
+example :
+    scaledPixel ⟨4, true, 255, 255, 255, 0, 8, 16⟩ (Img.tabulate 4 2 fun x y => 10 * x + y + 256 * (x + 1)) 2 1 1 0
+      = ((20 + 30 + 21 + 31) / 4) + 256 * ((3 + 4 + 3 + 4) / 4) := by
+  decide +kernel
+-- pointer: 98 wide, factor 2 (the size on which the unfixed divide-first code returned 1)
+example : scaleN 1 49 98 = 2 := by decide
 
 end VncModel.Props.C17
